@@ -439,3 +439,78 @@ def aliasing_probe(ds, read_tf):
     if read_tf(tf) != snap:
         probs.append("editing the DataFrame's numerical columns after materialize() changed the TensorFrame")
     return probs
+
+
+# ------------------------------------------------------------------ deterministic REQUIRED cases
+# Everything sanity() of c01.py / c02.py demands is produced by these builders from a fixed template, independent of
+# the seed (the random streams only add to it).
+def cycle_forms(i, with_path=False):
+    j = i % 3
+    return {"sep": SEP_FORMS[j], "fmt": SEP_FORMS[j], "cfg": ["dict", "single"][i % 2], "split_col": i % 2 == 0,
+            "stype_order": "reverse" if i % 2 == 1 else None, "args": ["keyword", "positional"][(i // 2) % 2],
+            "device": DEVICES[i % 3], "path": bool(with_path and i % 4 == 0), "return_stype": (i // 3) % 2 == 0}
+
+
+def template_cols(i, tokenized=True, n_rows=4):
+    """A fixed 4-row frame over all stypes.  Variant j = i % 3 decides whether one value can configure all columns of
+    a stype (j = 1: one multicategorical / timestamp column) or a partial dict is possible (a None among the values)."""
+    j = i % 3
+    fl = ["float64", "float32", "float16", "Float64", "Float32"][i % 5]
+    it = ["int64", "int32", "Int64"][i % 3]
+    sd = ["object", "str"][i % 2]
+    base = {"sep": None, "fmt": None, "width": None}
+    cols = [
+        dict(base, name="num", stype="numerical", dtype="float", cells=[1.0, None, 3.0, 4.5], num_dtype=fl),
+        dict(base, name="cnt", stype="numerical", dtype="float", cells=[2.0, 2.0, 5.0, 7.0], num_dtype=it),
+        dict(base, name="cat", stype="categorical", dtype=sd, cells=["a", "b", "b", "a"], nan_kind="none"),
+        dict(base, name="mc", stype="multicategorical", dtype=sd, sep="|", cells=["a|b", " b ", None, ""], nan_kind="nan"),
+        dict(base, name="seq", stype="sequence_numerical", dtype="object", cells=[[1.0, 2.0], None, [], [3.5, None]],
+             nan_kind="none"),
+        dict(base, name="ts", stype="timestamp", dtype=sd, fmt="%Y-%m-%d",
+             cells=[[2020, 1, 2, 0, 0, 0], None, [1999, 12, 31, 0, 0, 0], "garbage"], nan_kind="none"),
+        dict(base, name="z_emb", stype="embedding", dtype="object", width=1, cells=[[0.5], [1.5], [2.5], [3.5]]),
+        dict(base, name="a_txt", stype="text_embedded", dtype="object", cells=["x", "y", None, "z w"], nan_kind="none",
+             batch_size=2),
+        dict(base, name="b_img", stype="image_embedded", dtype=sd, cells=["p", "q", "r", None], nan_kind="nan",
+             batch_size=None),
+    ]
+    if j != 1:
+        ints = i % 2 == 0
+        cols.append(dict(base, name="ml", stype="multicategorical", dtype="object", nan_kind="none",
+                         cells=[[1], [2, 1], None, []] if ints else [["a"], ["b", "a"], None, []], int_tokens=ints))
+        cols.append(dict(base, name="td", stype="timestamp", dtype="datetime64", fmt="datetime64",
+                         cfg_fmt=None if j == 2 else "%Y-%m-%d",
+                         cells=[[2020, 1, 2, 3, 4, 5], [1700, 3, 1, 0, 0, 0], None, [2200, 12, 31, 23, 59, 59]]))
+    if tokenized:
+        cols.append(dict(base, name="tok", stype="text_tokenized", dtype="object", cells=["ab", None, "c", "de"],
+                         nan_kind="none", batch_size=None))
+    if n_rows != 4:
+        cols = [dict(c, cells=c["cells"][:n_rows]) for c in cols]
+    return cols
+
+
+def template_target(kind, unlabeled, n_rows=4):
+    if kind == "none":
+        return None
+    base = {"sep": None, "fmt": None, "width": None}
+    if kind == "numerical":
+        col = dict(base, name="y_num", stype="numerical", dtype="float", cells=[0.5, 1.5, 2.5, 3.5], num_dtype="float32")
+    else:
+        col = dict(base, name="y_cat", stype="categorical", dtype="object", cells=["u", "v", "v", "u"], nan_kind="none")
+    idx = {"first": [0], "last": [n_rows - 1], "all": list(range(n_rows)), None: []}[unlabeled]
+    col["cells"] = [None if i in idx else v for i, v in enumerate(col["cells"][:n_rows])]
+    return col
+
+
+def template_frame(i, target="none", unlabeled=None, tokenized=True, n_rows=4):
+    cols = template_cols(i, tokenized, n_rows)
+    t = template_target(target, unlabeled, n_rows)
+    if t is not None:
+        cols.append(t)
+    order = [c["name"] for c in cols]
+    order = order[i % len(order):] + order[:i % len(order)]
+    forms = cycle_forms(i)
+    if forms["stype_order"] == "reverse":
+        forms["stype_order"] = order[::-1]
+    return {"n": n_rows, "index": "range", "cols": cols, "target": None if t is None else t["name"],
+            "col_order": order}, forms
